@@ -39,7 +39,7 @@ EDGES3 = [((0, 0), (1, 0)), ((1, 0), (2, 0)), ((0, 1), (1, 1)), ((1, 1), (2, 1))
 
 
 def budget_s(tier):
-    return 900 if tier == "quick" else 5400
+    return 3000 if tier == "quick" else 7200
 
 
 def edge_options(tier):
